@@ -6,7 +6,10 @@ reference b at time t) of every shape in the stated range and each value is judg
 statement prescribes. Bilinearity itself is checked on all pair sums / scalings of basis elements for the
 smallest shapes. Larger shapes: payload records against a loop construction written from the statement. The
 data-driven method: shape and the Gram identity of the orthogonal projection. `SSIResult.H` after a real run
-is compared with `build_hank` of the bound data for every ordered reference list.
+is compared with `build_hank` of the bound data for every ordered reference list. Long records (record lengths
+around and above 2**12 .. 2**17 samples, where an implementation may switch to another way of assembling the
+same sums): the same loop construction / projection identity on a small lattice of lengths at both sides of
+each power of two, methods x integer/float record types, and `SSIResult.H` after runs on such records.
 
 What the statement leaves open is left open here:
   * the sign convention of the lag (only: the same in every block of one matrix),
@@ -27,10 +30,13 @@ ID = "C12"
 TECHNIQUE = ("exhaustive evaluation of the bilinear map on a complete basis (all pairs of unit impulses) for every "
              "shape in the stated range, oracle on every value; exhaustive pair-sum/scaling bilinearity on the smallest "
              "shapes; lattice of larger shapes against an independent loop construction and the projection Gram identity; "
-             "SSIResult.H after real runs over every ordered reference list")
+             "SSIResult.H after real runs over every ordered reference list; long records (lengths at both sides of "
+             "2**12..2**17 and multiples) against the same loop construction / projection identity")
 LEVEL_TEXT = ("bounded-exhaustive: inside the stated shape range the covariance-method map is decided completely (a "
               "bilinear map is fixed by its values on a basis, and bilinearity is checked exhaustively on the smallest "
-              "shapes); outside it, and for the data-driven method, a finite lattice around a payload alphabet")
+              "shapes); outside it, and for the data-driven method, a finite lattice around a payload alphabet, "
+              "including a lattice of long records (number of averaged products 2**k-1 .. 2**k+2 for k in 12..17, "
+              "5000, 20000, 70001 and 3*2**16+50 samples; 1..3 channels, br 1..3)")
 RULE = ("basis part: one case = (channels l, references r, block rows br, record length, method, channel a, "
         "reference b, impulse-time difference s-t); non-trivial iff |s-t| equals the lag of at least one block, so "
         "that the prescribed matrix is non-zero; cases differing only in the absolute impulse time are NOT counted "
@@ -43,6 +49,10 @@ ASSUMPTIONS = [
     "bilinearity is checked on basis pair sums and scalings only; this is exact for maps polynomial of degree <= 2 "
     "per argument",
     "records of the loop-construction and projection parts are zero in the first and last 2*br+4 samples",
+    "long records are explored on a lattice of lengths only (both sides of powers of two 2**12..2**17, 5000, 20000, 70001, "
+    "3*2**16+50), with 1..3 channels and br 1..3, as coloured (first-order recursive) mixed payload records held as "
+    "float64, int16 or int32; lengths between the lattice points and above 3*2**16+50 (thorough: 2**18+2**16-1) are not "
+    "explored; a seam within 2*br+4 samples of the end of a record is invisible (the records vanish there)",
 ]
 
 TOL_EXACT = 1e-12
@@ -296,7 +306,37 @@ def loop_cov(Y, Yr, L, sigma):
     return C
 
 
+LONG_DTYPES = ("float64", "int16", "int32")
+
+
+def padded_long(seed, tag, rows, Nd, br, dtype):
+    """Long record: coloured (y[n] = 0.7 y[n-1] + x[n] on the payload alphabet) and cyclically mixed rows, zero in the
+    first and last 2*br+4 samples; integer types hold round(900 y) / round(2e6 y) (raw counts)."""
+    from scipy.signal import lfilter
+
+    m = 2 * br + 4
+    x = payload.normal(seed, tag, (rows, Nd - 2 * m))
+    f = lfilter([1.0], [1.0, -0.7], x, axis=1) * (1 - 0.49) ** 0.5      # y[n] = x[n] + 0.7 y[n-1], unit variance
+    if rows > 1:
+        f = f + 0.5 * np.roll(f, 1, axis=0)
+    Y = np.zeros((rows, Nd))
+    Y[:, m:Nd - m] = f
+    if dtype != "float64":
+        Y = np.round(Y * (900.0 if dtype == "int16" else 2.0e6)).astype(dtype)
+    return Y
+
+
 def records(seed, cfg):
+    if len(cfg) > 7:
+        idx, l, r, br, Nd, method, variant, dtype = cfg
+        Y = padded_long(seed, f"c12/long/{l}/{br}/{Nd}/Y", l, Nd, br, dtype)
+        if variant == "refs-are-first-channels":
+            Yr = Y[:r].copy()
+        elif variant == "refs-are-last-channels-reversed":
+            Yr = Y[::-1][:r].copy()
+        else:
+            Yr = padded_long(seed, f"c12/long/{l}/{r}/{br}/{Nd}/R", r, Nd, br, dtype)
+        return Y, Yr
     idx, l, r, br, Nd, method, variant = cfg
     Y = padded(seed, f"c12/pad/{l}/{br}/{Nd}/Y", l, Nd, br)
     if variant == "refs-are-first-channels":
@@ -310,7 +350,9 @@ def records(seed, cfg):
 
 def padded_cov_config(item):
     seed, cfg = item
-    idx, l, r, br, Nd, method, variant = cfg
+    idx, l, r, br, Nd, method, variant = cfg[:7]
+    # long-record lattice points carry the record type as an 8th element; same judgement, own class keys and counters
+    pre = "long:" if len(cfg) > 7 else ""
     t = Tally()
     t.states = 1
     case = {"part": "loop", "cfg": list(cfg), "seed": seed}
@@ -318,16 +360,26 @@ def padded_cov_config(item):
     nb = br + 1
     try:
         H = _hank(Y, Yr, br, method)
+        if pre:
+            # the matrix is judged on the numbers of the record (held as floats)
+            Y, Yr = Y.astype(float), Yr.astype(float)
     except Exception as e:
         t.evaluations += 1
-        t.violation(f"raises:{type(e).__name__}:build_hank:{method}", f"build_hank raised {type(e).__name__}: {e} on l={l} r={r} br={br} Ndat={Nd}", case)
+        t.violation(f"raises:{type(e).__name__}:build_hank:{method}", f"build_hank raised {type(e).__name__}: {e} on l={l} r={r} br={br} Ndat={Nd}"
+                    + (f" ({cfg[7]} record)" if pre else ""), case)
         return t
     t.evaluations += 1
     t.transitions += 1
     t.validated += 1
-    t.nontrivial.add(("loop", idx))
+    t.nontrivial.add((pre + "loop", idx))
+    if pre:
+        Nprod = Nd - 2 * br - 1
+        k = int(round(np.log2(Nprod)))
+        side = "below" if Nprod < 2 ** k else "at" if Nprod == 2 ** k else "above"
+        t.outcomes[f"long:records:{method}:products-{side}-2**{k}" if abs(Nprod - 2 ** k) <= 2 else f"long:records:{method}:products-other"] += 1
+        t.outcomes[f"long:records-as-{cfg[7]}:{method}"] += 1
     if H.shape != (nb * l, nb * r):
-        t.violation(f"loop:shape:{method}", f"{method} l={l} r={r} br={br} Ndat={Nd}: shape {H.shape} instead of {(nb * l, nb * r)}", case)
+        t.violation(f"{pre}loop:shape:{method}", f"{method} l={l} r={r} br={br} Ndat={Nd}: shape {H.shape} instead of {(nb * l, nb * r)}", case)
         return t
     lags = sorted({lag_of(method, br, i, j) for i in range(nb) for j in range(nb)})
     verdicts = {}
@@ -349,30 +401,33 @@ def padded_cov_config(item):
     best = passing[0] if passing else fitting[0] if fitting else min(
         verdicts, key=lambda s: verdicts[s][0] if verdicts[s][0] == verdicts[s][0] else float("inf"))
     worst, wbad, info = verdicts[best]
-    t.err(f"loop:residual:{method}", worst)
+    t.err(f"{pre}loop:residual:{method}", worst)
     if not worst <= TOL_LOOP:
-        t.violation(f"loop:mismatch:{method}",
+        t.violation(f"{pre}loop:mismatch:{method}",
                     f"{method} l={l} r={r} br={br} Ndat={Nd} ({variant}): no per-lag weight makes the blocks equal to the lagged "
                     f"cross-correlation sums of the statement; best sign s-t={'+' if best > 0 else '-'}lag leaves a relative residual "
                     f"{worst:.3g} (lag {info[0] if info else '?'}); other sign {verdicts[-best][0]:.3g}", case)
     elif wbad is not None:
-        t.violation(f"loop:normalisation:{method}",
+        t.violation(f"{pre}loop:normalisation:{method}",
                     f"{method} l={l} r={r} br={br} Ndat={Nd}: lag {wbad[0]} carries weight {wbad[1]!r}, not an average over about Ndat products "
                     f"(weight x Ndat = {wbad[1] * Nd:.4g})", case)
     else:
-        t.outcomes[f"loop:equal:{method}:{'either-sign' if len(passing) == 2 else 's-t=+lag' if best > 0 else 's-t=-lag'}"] += 1
-        if idx % 11 == 0:
-            t.sample({"part": "loop", "l": l, "r": r, "br": br, "Ndat": Nd, "method": method, "variant": variant, "residual": worst})
+        t.outcomes[f"{pre}loop:equal:{method}:{'either-sign' if len(passing) == 2 else 's-t=+lag' if best > 0 else 's-t=-lag'}"] += 1
+        if idx % (13 if pre else 11) == 0:
+            t.sample(dict({"part": pre + "loop", "l": l, "r": r, "br": br, "Ndat": Nd, "method": method, "variant": variant, "residual": worst},
+                          **({"record_type": cfg[7]} if pre else {})))
     return t
 
 
 def dat_config(item):
     seed, cfg = item
-    idx, l, r, br, Nd, method, variant = cfg
+    idx, l, r, br, Nd, method, variant = cfg[:7]
+    pre = "long:" if len(cfg) > 7 else ""
     t = Tally()
     t.states = 1
     case = {"part": "dat", "cfg": list(cfg), "seed": seed}
-    Y, Yr = records(seed, cfg)
+    Yraw, Yrraw = records(seed, cfg)
+    Y, Yr = (Yraw.astype(float), Yrraw.astype(float)) if pre else (Yraw, Yrraw)
     nb = br + 1
     # stacked future (all channels, block i at time u+1+i) and past reference (block j at time u-j) data matrices over every u
     us = np.arange(br, Nd - br - 1)
@@ -381,12 +436,12 @@ def dat_config(item):
     Gp = Yp @ Yp.T
     if not np.linalg.cond(Gp) <= COND_MAX:
         t.skipped_by_guard += 1
-        t.outcomes["dat:guard:past-not-full-rank"] += 1
+        t.outcomes[pre + "dat:guard:past-not-full-rank"] += 1
         return t
     X = Yf @ Yp.T
     G = X @ np.linalg.solve(Gp, X.T)
     try:
-        H = _hank(Y, Yr, br, "dat")
+        H = _hank(Yraw, Yrraw, br, "dat")
     except Exception as e:
         t.evaluations += 1
         t.violation(f"raises:{type(e).__name__}:build_hank:dat", f"build_hank raised {type(e).__name__}: {e} on l={l} r={r} br={br} Ndat={Nd}", case)
@@ -394,25 +449,31 @@ def dat_config(item):
     t.evaluations += 1
     t.transitions += 1
     t.validated += 1
-    t.nontrivial.add(("dat", idx))
+    t.nontrivial.add((pre + "dat", idx))
+    if pre:
+        Nprod = Nd - 2 * br - 1
+        k = int(round(np.log2(Nprod)))
+        side = "below" if Nprod < 2 ** k else "at" if Nprod == 2 ** k else "above"
+        t.outcomes[f"long:records:dat:products-{side}-2**{k}" if abs(Nprod - 2 ** k) <= 2 else "long:records:dat:products-other"] += 1
+        t.outcomes[f"long:records-as-{cfg[7]}:dat"] += 1
     if H.shape != (nb * l, nb * r):
-        t.violation("dat:shape", f"dat l={l} r={r} br={br} Ndat={Nd}: shape {H.shape} instead of (br+1)*l x (br+1)*r = {(nb * l, nb * r)}", case)
+        t.violation(pre + "dat:shape", f"dat l={l} r={r} br={br} Ndat={Nd}: shape {H.shape} instead of (br+1)*l x (br+1)*r = {(nb * l, nb * r)}", case)
         return t
     HH = H @ H.T
     c = float(np.sum(HH * G) / np.sum(G * G))
     res = float(np.max(np.abs(HH - c * G)) / (abs(c) * np.max(np.abs(G)) or 1.0))
-    t.err("dat:gram-residual", res)
-    t.err("dat:|1-scale*Ndat|", abs(1 - c * Nd))
+    t.err(pre + "dat:gram-residual", res)
+    t.err(pre + "dat:|1-scale*Ndat|", abs(1 - c * Nd))
     if not res <= TOL_GRAM:
-        t.violation("dat:gram",
+        t.violation(pre + "dat:gram",
                     f"dat l={l} r={r} br={br} Ndat={Nd} ({variant}): H H^T is not a multiple of Yf Yp^T (Yp Yp^T)^-1 Yp Yf^T "
                     f"(relative residual {res:.3g} with the best scale {c:.4g})", case)
     elif not (c > 0 and 0.5 <= c * Nd <= 2.0):
-        t.violation("dat:normalisation", f"dat l={l} r={r} br={br} Ndat={Nd}: Gram scale {c!r} (x Ndat = {c * Nd:.4g}) is not that of 1/sqrt(N)-scaled data matrices", case)
+        t.violation(pre + "dat:normalisation", f"dat l={l} r={r} br={br} Ndat={Nd}: Gram scale {c!r} (x Ndat = {c * Nd:.4g}) is not that of 1/sqrt(N)-scaled data matrices", case)
     else:
-        t.outcomes["dat:gram-equal"] += 1
-        if idx % 17 == 0:
-            t.sample({"part": "dat", "l": l, "r": r, "br": br, "Ndat": Nd, "variant": variant, "gram_residual": res, "scale_x_Ndat": c * Nd})
+        t.outcomes[pre + "dat:gram-equal"] += 1
+        if idx % (13 if pre else 17) == 0:
+            t.sample({"part": pre + "dat", "l": l, "r": r, "br": br, "Ndat": Nd, "variant": variant, "gram_residual": res, "scale_x_Ndat": c * Nd})
     return t
 
 
@@ -462,6 +523,8 @@ def run_config(item):
                     f"(shape {want.shape})", case)
     else:
         t.outcomes[f"run:H-equal:{method}:{'all-channels' if ref is None else 'ordered-subset' if list(ref) == sorted(ref) else 'permuted-subset'}"] += 1
+        if Nd > 2 ** 16:
+            t.outcomes[f"run:long-record:H-equal:{method}"] += 1
         if idx % 29 == 0:
             t.sample({"part": "run", "l": l, "ref_ind": ref, "br": br, "Ndat": Nd, "method": method, "H_shape": list(H.shape)})
     # the SAME algorithm object bound to other records of the same shape (re-added to another setup) and run again: the
@@ -539,6 +602,36 @@ def padded_lattice(thorough, methods):
     return out
 
 
+LONG_SHAPES = ((1, 1, 1), (2, 1, 2), (2, 2, 3), (3, 2, 1), (3, 3, 2), (2, 2, 1))      # (channels, references, br)
+LONG_METHODS = ("cov_mm", "cov_R", "dat")
+
+
+def long_lengths(thorough):
+    """List of ((k, d), None): the number of averaged products Ndat-2br-1 is 2**k+d, or (None, Ndat): that record length.
+    The thorough list is the quick list followed by more lengths (the quick points keep their index, hence their rotation)."""
+    # (the records vanish near both ends, so a power of two met within 2*br+4 samples of the end of the record is seen by the
+    # next lengths only: 5000, 20000, 70001, 3*2**16+50 lie well inside the next octave of 2**12, 2**14, 2**16, 2**17)
+    out = [((k, d), None) for k in (12, 14, 16, 17) for d in (-1, 0, 1, 2)] + [(None, 5000), (None, 20000), (None, 70001), (None, 3 * 2 ** 16 + 50)]
+    if thorough:
+        out += [((k, d), None) for k in (13, 15, 18) for d in (-1, 0, 1, 2)] + [(None, 10000), (None, 40000), (None, 100000), (None, 2 ** 18 + 2 ** 16 - 1)]
+    return out
+
+
+def long_lattice(thorough, methods):
+    """Long records: every length of long_lengths x every method x every reference variant; the shape and the record
+    type rotate with the length, the method and the variant."""
+    out = []
+    for n, (kd, Ndfix) in enumerate(long_lengths(thorough)):
+        for method in methods:
+            M = LONG_METHODS.index(method)
+            for v, variant in enumerate(VARIANTS):
+                l, r, br = LONG_SHAPES[(n + 2 * M + v) % len(LONG_SHAPES)]
+                Nd = Ndfix if Ndfix is not None else 2 ** kd[0] + kd[1] + 2 * br + 1
+                dtype = LONG_DTYPES[(n // 2 + M + 2 * v) % 3]
+                out.append((len(out), l, r, br, Nd, method, variant, dtype))
+    return out
+
+
 def run_lattice(thorough):
     out = []
     for l in range(1, 5):
@@ -550,6 +643,11 @@ def run_lattice(thorough):
                 for Nd in ((60, 97) if thorough else (60,)):
                     for method in ("cov_mm", "cov_R", "dat"):
                         out.append((len(out), l, ref, br, Nd, method))
+    # long records through a real run (few channels; the record type rotates with the index as above)
+    for (l, ref, br, Nd) in [(2, [1, 0], 1, 2 ** 16 + 5), (3, [2], 2, 2 ** 16 + 2 ** 12), (2, None, 3, 2 ** 17 + 9)] + (
+            [(3, [0, 2], 2, 3 * 2 ** 16 + 50), (2, [0], 1, 2 ** 18 + 4)] if thorough else []):
+        for method in ("cov_mm", "cov_R", "dat"):
+            out.append((len(out), l, ref, br, Nd, method))
     return out
 
 
@@ -559,6 +657,8 @@ def explore(ctx):
     loop = padded_lattice(ctx.thorough, ("cov_mm", "cov_R"))
     dat = padded_lattice(ctx.thorough, ("dat",))
     runs = run_lattice(ctx.thorough)
+    longc = long_lattice(ctx.thorough, ("cov_mm", "cov_R"))
+    longd = long_lattice(ctx.thorough, ("dat",))
     ctx.bounds = {
         "basis": {"channels": [1, 2, 3, 4], "references": "1..channels", "br": [1, 2, 3, 4, 5],
                   "record_lengths": "2br+3..40" if ctx.thorough else "{2br+3, 17, 24}", "methods": ["cov_mm", "cov_R"],
@@ -571,6 +671,13 @@ def explore(ctx):
                            "record_lengths": [min(c[4] for c in dat), max(c[4] for c in dat)], "variants": list(VARIANTS)},
         "run": {"points": len(runs), "channels": [1, 2, 3, 4], "ref_ind": "None and every ordered arrangement of every non-empty subset",
                 "br": sorted({c[3] for c in runs}), "record_lengths": sorted({c[4] for c in runs}), "methods": ["cov_mm", "cov_R", "dat"]},
+        "long_records": {"points": len(longc) + len(longd), "methods": list(LONG_METHODS),
+                         "averaged_products(Ndat-2br-1)": [f"2**{kd[0]}{kd[1]:+d}" for kd, _ in long_lengths(ctx.thorough) if kd is not None],
+                         "other_record_lengths": [b for a, b in long_lengths(ctx.thorough) if a is None],
+                         "shapes(channels, references, br)": [list(x) for x in LONG_SHAPES], "variants": list(VARIANTS),
+                         "record_types": list(LONG_DTYPES), "record_lengths": sorted({c[4] for c in longc + longd}),
+                         "judged_by": "loop construction (cov_mm, cov_R) / projection Gram identity (dat), as the shorter records",
+                         "rotation": "one point per (length, method, variant); shape and record type rotate with them"},
     }
     # biggest shapes first (one item = one shape = up to 25 600 library calls)
     ctx.pmap(basis_config, sorted(basis, key=lambda c: -(c[1] * c[2] * c[4] ** 2)), chunksize=1)
@@ -578,11 +685,22 @@ def explore(ctx):
     ctx.pmap(padded_cov_config, [(ctx.seed, c) for c in loop], chunksize=4)
     ctx.pmap(dat_config, [(ctx.seed, c) for c in dat], chunksize=4)
     ctx.pmap(run_config, [(ctx.seed, c) for c in runs], chunksize=4)
+    # long records, longest first
+    ctx.pmap(padded_cov_config, [(ctx.seed, c) for c in sorted(longc, key=lambda c: -c[4] * c[1])], chunksize=1)
+    ctx.pmap(dat_config, [(ctx.seed, c) for c in sorted(longd, key=lambda c: -c[4] * c[1])], chunksize=1)
     ctx.require("basis:layout-as-stated:cov_mm", "basis:layout-as-stated:cov_R", "basis:zero-matrix", "basis:non-zero-matrix",
                 "bilin:additive-in-data:ok", "bilin:additive-in-reference:ok", "bilin:homogeneous-in-data:ok",
                 "bilin:homogeneous-in-reference:ok", "bilin:homogeneous-jointly:ok", "dat:gram-equal",
                 "run:H-equal:cov_mm:permuted-subset", "run:H-equal:cov_R:permuted-subset", "run:H-equal:dat:permuted-subset",
                 "run:H-equal:dat:all-channels", "rerun:H-equal:cov_mm", "rerun:H-equal:cov_R", "rerun:H-equal:dat", "run:records-as-int16", "run:records-as-int32")
+    # the long-record region was really explored: every method judged equal at every side of 2**16 and 2**17, each record type
+    ctx.require("long:dat:gram-equal", "run:long-record:H-equal:cov_mm", "run:long-record:H-equal:cov_R", "run:long-record:H-equal:dat",
+                *[f"long:records:{m}:products-{side}-2**{k}" for m in LONG_METHODS for k in (12, 16, 17) for side in ("below", "at", "above")],
+                *[f"long:records:{m}:products-other" for m in LONG_METHODS],
+                *[f"long:records-as-{d}:{m}" for m in LONG_METHODS for d in LONG_DTYPES])
+    for m in ("cov_mm", "cov_R"):
+        if not any(k.startswith(f"long:loop:equal:{m}") for k in ctx.tally.outcomes):
+            ctx.require(f"long:loop:equal:{m}")
     if not any(k.startswith("loop:equal:cov_mm") for k in ctx.tally.outcomes):
         ctx.require("loop:equal:cov_mm")
     if not any(k.startswith("loop:equal:cov_R") for k in ctx.tally.outcomes):
